@@ -218,6 +218,23 @@ def entriesOk (d : GDirective) (s : SDirective) : Bool :=
 def dirOk (d : GDirective) (s : SDirective) : Bool :=
   d.file == s.file && d.name == s.name && d.unknown.isEmpty && entriesOk d s && introsOk d s && keysOk d s && relsOk d s && actsOk d s
 
+/-- the documented category names against the recorded ones: `docs` = the generated headings of introspector.rst,
+`undoc` = the specified list of category expressions the chapter is silent about -/
+def docOk (docs undoc : List String) (ds : List GDirective) (ss : List SDirective) : Bool :=
+  let quoted := docs.map fun c => "'" ++ c ++ "'"
+  let recorded := ds.flatMap fun d => d.intros.map (·.category)
+  -- every recorded category is documented, or is one the chapter does not list
+  recorded.all (fun c => quoted.contains c || undoc.contains c)
+  -- every heading is recorded by some directive
+  && quoted.all (fun c => recorded.contains c)
+  -- the two lists do not overlap
+  && undoc.all (fun c => !quoted.contains c)
+  -- the specification's documented name of each introspectable is a heading and is the category in the source
+  && ss.all (fun s => s.docCategory.all fun p =>
+       docs.contains p.2 && s.intros.all (fun i => i.var != p.1 || i.category == "'" ++ p.2 ++ "'"))
+  -- every introspectable filed under a heading has its documented name in the specification
+  && ss.all (fun s => s.intros.all fun i => !quoted.contains i.category || s.docCategory.any (fun p => p.1 == i.var))
+
 /-- every introspectable variable built by the directive reaches some action's `introspectables=` -/
 def allReach (d : GDirective) : Bool :=
   d.intros.all fun i => d.acts.any fun a =>
